@@ -425,7 +425,7 @@ def default_models():
                 res = _ite(I.compare('<', v, x1), seg, res)
             res = _ite(I.compare('<', v, xs[0]), lo, res)
             # np.interp lies between the smallest and the largest of the values it can return (node values, left, right):
-            # registered for the bound lemmas (pyvc.signs2); part of the assumed np.interp contract, tried by pyvc.conformance
+            # registered for the bound lemmas (pyvc.signs); part of the assumed np.interp contract, tried by pyvc.conformance
             if is_sym(res):
                 try:
                     vals = [to_real(f) if is_sym(f) else to_real(f) for f in ([lo] + list(fs) + [hi])]
